@@ -14,7 +14,7 @@ LEVEL_TEXT = ('seeded exploration: generated test programs (trees of phases/sequ
               'skipped; executor thread did not die; the bodies that ran are the declared ones), (b) the outcome must be '
               'in the allowed set computed by the independent reference model M_exec. Sampling, not exhaustive.')
 LEVEL_NOTE = ('trusted: simkit scheduler/clock, the reference model wx/model.py (DESIGN.md Appendix A), generated '
-              'workload code; abort outcomes are decided by C04, timing-ambiguous runs (duration inside '
+              'workload code; of the abort rules only "abort returned before the final teardown => ABORTED" is checked here (15% of the runs), the rest belongs to C04; timing-ambiguous runs (duration inside '
               '[deadline, deadline+3s)) only get the soundness half')
 DESIGN_REF = 'DESIGN.md section 4, C01'
 RULE = ('one run = one generated program (<= 12 nodes, depth <= 3, <= 3 scripted invocations per phase) + settings + '
@@ -24,15 +24,31 @@ ASSUMPTIONS = common.W_EXEC_ASSUMPTIONS
 COMPONENTS = common.W_EXEC_COMPONENTS
 QUICK = {'budget_s': 40}
 THOROUGH = {'budget_s': 480}
-EXPECTED_PROBES = ['pass_runs', 'm_stop_on_first_failure', 'm_run_if_false', 'm_skip_after_subtest_fail',
+EXPECTED_PROBES = ['pass_runs', 'abort_delivered', 'm_stop_on_first_failure', 'm_run_if_false', 'm_skip_after_subtest_fail',
                    'm_branch_not_taken', 'm_timeout']
 
 PROF = gen.profile(p_timeout=60, p_settings=400)
+# "an abort gives ABORTED": one operator abort from another thread at a tape-chosen step
+PROF_ABORT = gen.profile(p_timeout=60, p_settings=400, abort=1000, abort2=0, sigint=0)
 
 
 def setup():
   common.setup()
 
 
+def c01_abort(obs, act, viols, probes):
+  """Only the outcome half of the abort rules (everything else about aborts is C04's)."""
+  mine = []
+  pr = {}
+  oracles.c04(obs, act, mine, pr)
+  if pr.get('aborts_delivered'):
+    probes['abort_delivered'] = 1
+  for v in mine:
+    if v['clause'] == 'abort_before_final_teardown_but_not_ABORTED':
+      viols.append(v)
+
+
 def run_one(tape):
+  if tape.chance(150, 'abort_mode'):
+    return common.run_with(tape, PROF_ABORT, [oracles.c01, c01_abort])
   return common.run_with(tape, PROF, [oracles.c01])
